@@ -20,13 +20,14 @@ static size_t mkval(unsigned char *b, int v) {
     case 3: return (size_t) sprintf((char *) b, "%" PRId64, INTVAL) + 1;
     case 4: return 0;
     case 5: memcpy(b, "a\0c\xfe", 4); return 4;      /* same size as 2 and equal up to the first NUL */
+    case 6: memcpy(b, "on", 2); return 2;              /* a proper prefix of value 1 */
     default: b[0] = (unsigned char) v; return 1;
     }
 }
 static int vid(const void *d, size_t n) {
     if (!d) return 0;
     unsigned char t[64];
-    for (int v = 1; v <= 5; v++) { size_t tn = mkval(t, v); if (tn == n && !memcmp(d, t, n)) return v; }
+    for (int v = 1; v <= 6; v++) { size_t tn = mkval(t, v); if (tn == n && !memcmp(d, t, n)) return v; }
     return -1;
 }
 static int kid(const char *s) {
